@@ -24,7 +24,7 @@ THEOREMS = [
     "C14_game_moves", "C14_game_nosplit", "C14_game_badmove", "C14_str_nat_value", "C14_glyph_tie", "C14_regex_tie",
     "C14_regex_ast_text", "C14_move_regex_matcher", "C14_result_regex_matcher", "C14_number_regex_matcher",
     "C14_suffix_regex_sub", "C14_comment_regex_sub", "C14_space_regex_match_partial", "C14_tag_regex_attempt_partial",
-]
+            "C14_source_format_move_eq", "C14_source_format_move_crashes", "C14_source_parse_format_move"]
 MODEL_TARGETS = ["model/Tak.vo", "model/Harness.vo", "model/Lit.vo", "model/Ptn.vo"]
 TRUSTED_BASE = [
     "the regex semantics of spec/RegexSpec.v (standard declarative set-of-matches semantics + a printer to Python syntax; "
@@ -1023,3 +1023,21 @@ def replay(run, rp):
         return {"violates": bool(failing or shard_fail or (o != "B" and o[0] == "C")), "impl": j_obs(o), "ref": ref_parse(s),
                 "model": cs.model_view(cs.terms[0])}
     return {"violates": True, "note": "replay file names a broken obligation, not an input", "broken": rp.get("broken_obligations")}
+
+
+# ---- translator tie (T): the C14_source_* theorems quantify over functions REGENERATED FROM THE SOURCE; t14's
+# correspondence validates the semantics library and the translation scheme on every run.
+from . import t14 as _t14  # noqa: E402
+
+MODEL_TARGETS = sorted(set(list(MODEL_TARGETS) + list(_t14.MODEL_TARGETS)))
+TRUSTED_BASE = list(TRUSTED_BASE) + list(getattr(_t14, "TRUSTED_BASE", []))
+_c14_correspondence = correspondence
+
+
+def pregen(run):
+    return _t14.pregen(run)
+
+
+def correspondence(run):
+    _c14_correspondence(run)
+    _t14.correspondence(run)
